@@ -568,3 +568,30 @@ Theorem C19_new_map_json_code_is_model : forall (Decode : str -> bool -> res val
     end.
 Proof. exact new_map_json_code_is_model. Qed.
 Print Assumptions C19_new_map_json_code_is_model.
+
+(* ---- gob.go itself, translated from the current sources: Map.Gob and NewMapGob are the models map_gob / new_map_gob for ANY
+   behaviour of encoding/gob, and the round trip holds on the translated code for a codec that inverts itself
+   (GenProofs/PureG33.v) *)
+From Mxj Require Import Gen.Setters_gen Gen.PureSupport Gen.Pure_gen GenProofs.PureG5 GenProofs.PureG33.
+
+Theorem C19_new_map_gob_code_is_model : forall (decode : str -> entries -> res entries) st gobj,
+  fn_NewMapGob decode st gobj
+  = of_res (res_map (fun v => match v with VMap m => m | _ => [] end) (new_map_gob (gob_dec_of decode) gobj)).
+Proof. exact new_map_gob_code_is_model. Qed.
+Print Assumptions C19_new_map_gob_code_is_model.
+
+Theorem C19_gob_code_is_model : forall (encode : value -> res str) st mv, encode (VMap mv) <> Panic ->
+  exists r, fn_Gob encode st mv = Ret r /\
+    match r, map_gob (gob_enc_of encode) (VMap mv) with
+    | Ok b, Ok b' => b = b'
+    | Err _, Err _ => True
+    | _, _ => False
+    end.
+Proof. exact gob_code_is_model. Qed.
+Print Assumptions C19_gob_code_is_model.
+
+Theorem C19_gob_code_roundtrip : forall encode decode st mv b,
+  encode (VMap mv) = Ok b -> b <> [] -> decode b [] = Ok mv ->
+  fn_Gob encode st mv = Ret (Ok b) /\ fn_NewMapGob decode st b = Ret (Ok mv).
+Proof. exact gob_code_roundtrip. Qed.
+Print Assumptions C19_gob_code_roundtrip.
